@@ -176,6 +176,7 @@ fn history<Ty: EdgeType + Flip, Ix: IndexType>(cx: &mut Cx, rng: &mut Rng, ixnam
     let absent_pct = [5u32, 15, 30][rng.below(3)];
     let mut removals = 0;
     let mut kinds = crate::cx::H::new();
+    let mut snap: Option<Graph<u32, u32, Ty, Ix>> = None;
     for step in 0..nops {
         let n = st.m.nodes.len();
         let me = st.m.edges.len();
@@ -548,15 +549,42 @@ fn history<Ty: EdgeType + Flip, Ix: IndexType>(cx: &mut Cx, rng: &mut Rng, ixnam
             }
             11 => {
                 cx.log(|| format!("#{} clone / clone_from", step));
-                if rng.coin() {
-                    st.g = st.g.clone();
-                } else {
-                    let mut other = Graph::<u32, u32, Ty, Ix>::with_capacity(0, 0);
-                    other.add_node(1);
-                    other.clone_from(&st.g);
-                    st.g = other;
+                match rng.below(4) {
+                    0 => st.g = st.g.clone(),
+                    1 => {
+                        let mut other = Graph::<u32, u32, Ty, Ix>::with_capacity(0, 0);
+                        other.add_node(1);
+                        other.clone_from(&st.g);
+                        st.g = other;
+                    }
+                    2 if snap.is_some() => {
+                        // destination: an earlier state of this very history (same prefix, different links)
+                        let mut other = snap.take().unwrap();
+                        cx.log(|| format!("   clone_from into an earlier snapshot with {} nodes / {} edges", other.node_count(), other.edge_count()));
+                        other.clone_from(&st.g);
+                        st.g = other;
+                        cx.count("Graph:clone_from-into-earlier-snapshot");
+                    }
+                    _ => {
+                        // destination: an unrelated populated graph, smaller or larger than the source
+                        let mut other = Graph::<u32, u32, Ty, Ix>::with_capacity(0, 0);
+                        let n = 1 + rng.below(2 * st.g.node_count().min(20) + 3);
+                        for k in 0..n {
+                            other.add_node(1_000_000 + k as u32);
+                        }
+                        for k in 0..rng.below(2 * st.g.edge_count().min(30) + 4) {
+                            other.add_edge(NodeIndex::new(rng.below(n)), NodeIndex::new(rng.below(n)), 2_000_000 + k as u32);
+                        }
+                        cx.log(|| format!("   clone_from into an unrelated graph with {} nodes / {} edges", other.node_count(), other.edge_count()));
+                        other.clone_from(&st.g);
+                        st.g = other;
+                        cx.count("Graph:clone_from-into-populated-graph");
+                    }
                 }
-                mutated = false;
+                if rng.coin() {
+                    snap = Some(st.g.clone());
+                }
+                mutated = true;
             }
             12 => {
                 cx.log(|| format!("#{} into_edge_type::<other>() and back", step));
